@@ -17,15 +17,34 @@ from pvm.ref import netmeasures as R
 RTOL = 1e-9         # plain floating point measures
 RTOL_SPEC = 1e-6    # ARPACK / PRPACK based ones
 
+# every method the check must have compared at least floor times (a measure
+# that is silently never reached makes the run INCONCLUSIVE, not held)
+METHODS = (
+    "degree indegree outdegree bildegree degree_distribution "
+    "indegree_distribution outdegree_distribution degree_cdf indegree_cdf "
+    "outdegree_cdf average_neighbors_degree max_neighbors_degree "
+    "local_clustering global_clustering transitivity "
+    "higher_order_transitivity local_cyclemotif_clustering "
+    "local_midmotif_clustering local_inmotif_clustering "
+    "local_outmotif_clustering local_cliquishness path_lengths "
+    "average_path_length diameter closeness global_efficiency "
+    "local_vulnerability betweenness interregional_betweenness "
+    "link_betweenness edge_betweenness newman_betweenness arenas_betweenness "
+    "matching_index coreness assortativity laplacian eigenvector_centrality "
+    "pagerank msf_synchronizability nsi_degree nsi_indegree nsi_outdegree "
+    "nsi_bildegree nsi_local_clustering nsi_betweenness").split()
+
 META = dict(
     shards={"quick": 16, "thorough": 16},
-    budget={"quick": 40, "thorough": 540},
+    budget={"quick": 150, "thorough": 1200},
     timeout={"quick": 600, "thorough": 3000},
     rule=(
         "cases: every labelled undirected graph with 2..4 nodes (quick) / 2..5 "
         "(thorough) and every labelled directed graph with 2..3 (quick) / 2..4 "
         "(thorough) nodes, each with one seeded random positive link attribute "
-        "(uniform reals or small-integer ties); the structured families of "
+        "(uniform reals or small-integer ties); a seeded density-swept sample of "
+        "the next size up (undirected 5 / directed 4 nodes quick: 160+256; "
+        "undirected 6 / directed 5 thorough: 4096+4096); the structured families of "
         "pvm.gen.graphs.families() plus their orientations; seeded G(n,p) and "
         "random connected graphs with 6..40 nodes over p in [0,1], directed and "
         "undirected. For each graph every measure listed under 'measures' in the "
@@ -48,20 +67,24 @@ META = dict(
         "pattern) whose reference value is not constant over the compared "
         "nodes/pairs (for scalar measures: whose graph has a non-constant degree "
         "sequence), so that an index or normalisation error would be visible."),
-    floors={"quick": {"compared": 6000, "exhaustive_graphs": 120,
-                      "random_graphs": 12, "family_graphs": 20,
-                      "weighted_compared": 1000, "spectral_compared": 40,
-                      "randomwalk_compared": 60, "nsi_relations": 300,
-                      "oracle_selfcheck": 100},
-            "thorough": {"compared": 200000, "exhaustive_graphs": 5000,
-                         "random_graphs": 300, "family_graphs": 20,
-                         "weighted_compared": 40000, "spectral_compared": 1500,
-                         "randomwalk_compared": 1500, "nsi_relations": 10000,
-                         "oracle_selfcheck": 1000}},
+    floors={"quick": dict(
+                {"compared": 12000, "exhaustive_graphs": 130,
+                 "sampled_small_graphs": 130, "random_graphs": 50,
+                 "family_graphs": 40, "weighted_compared": 3000,
+                 "spectral_compared": 700, "randomwalk_compared": 200,
+                 "nsi_relations": 2000, "oracle_selfcheck": 150},
+                **{f"m:{m}": 60 for m in METHODS}),
+            "thorough": dict(
+                {"compared": 300000, "exhaustive_graphs": 5000,
+                 "sampled_small_graphs": 2500, "random_graphs": 1200,
+                 "family_graphs": 40, "weighted_compared": 60000,
+                 "spectral_compared": 15000, "randomwalk_compared": 5000,
+                 "nsi_relations": 40000, "oracle_selfcheck": 3000},
+                **{f"m:{m}": 1500 for m in METHODS})},
     exhaustive_subspaces={
-        "quick": ["all labelled undirected graphs on 2..4 nodes (75)",
+        "quick": ["all labelled undirected graphs on 2..4 nodes (74)",
                   "all labelled directed graphs on 2..3 nodes (68)"],
-        "thorough": ["all labelled undirected graphs on 2..5 nodes (1099)",
+        "thorough": ["all labelled undirected graphs on 2..5 nodes (1098)",
                      "all labelled directed graphs on 2..4 nodes (4164)"]},
     assumptions=[
         "numpy.linalg dense eigh/eigvalsh/inv/solve are accurate to 1e-12 on these well conditioned <=40x40 problems (numpy.linalg.pinv is not used: its default cut-off failed on a 36-node Laplacian)",
@@ -482,6 +505,16 @@ def nsi_relations(ctx, c0, A, directed, rng, kdeg, kin, kout, kbil, lc, W):
     if not directed:
         c.check("nsi_local_clustering", pat, lc, typical_weight=cw,
                 mask=kdeg >= 2, counter="nsi_relations")
+    # corrected n.s.i. motif clustering: same `typical_weight` "correction"
+    # wording as nsi_degree / nsi_local_clustering; compared where the
+    # unweighted coefficient has a non-zero denominator
+    Tm = {"cycle": kin * kout - kbil, "mid": kin * kout - kbil,
+          "in": kin * (kin - 1), "out": kout * (kout - 1)}
+    for kind in ("cycle", "mid", "in", "out"):
+        if (Tm[kind] > 0).any():
+            c.check(f"nsi_local_{kind}motif_clustering", pat,
+                    R.motif_clustering(A, kind), typical_weight=cw,
+                    mask=Tm[kind] > 0, counter="nsi_relations")
     if W is not None:
         c.net = c0.net      # unit node weights, link attribute "w" set
         c.check("nsi_degree", "key,unit-weights", R.degree(A, directed, W),
@@ -543,6 +576,13 @@ def orientations(rng, A):
 def run(ctx):
     from pyunicorn.core.network import Network
     textbook_selfcheck()
+    ctx.note("measures", METHODS)
+    ctx.note("not_compared_on_directed_networks",
+             "higher_order_transitivity, local_cliquishness (refused), "
+             "matching_index, newman/arenas_betweenness, "
+             "eigenvector_centrality, msf_synchronizability (docstrings give "
+             "no directed convention); interregional/nsi_betweenness refuse "
+             "directed input with an AssertionError (counted, not an event)")
     nu = 5 if ctx.thorough else 4
     nd = 4 if ctx.thorough else 3
     idx = 0
